@@ -35,35 +35,55 @@ import (
 
 	NoKV "github.com/feichai0017/NoKV"
 	"github.com/feichai0017/NoKV/utils"
+	"github.com/feichai0017/NoKV/vfs"
 
 	"verif/harness/internal/vt"
 )
 
 type Op struct {
-	Kind string `json:"op"` // Set | Del | Get
+	Kind string `json:"op"` // Set | Del | Get | Sync (wait until the control thread has passed barrier N)
+	N    int    `json:"n"`
 	K    string `json:"k"`
 	V    string `json:"v"`   // unique token of a Set
 	Pad  int    `json:"pad"` // Set: pad the value to this many bytes (oversized values)
 }
 
 type Step struct {
-	Do string `json:"do"` // wait_calls | wait_rets | sleep_ms | throttle | stall | bulk | close | close_async
-	N  int    `json:"n"`
-	On bool   `json:"on"`
-	K  string `json:"k"`
+	// wait_calls | wait_rets | sleep_ms | throttle | stall | bulk | close | close_async |
+	// barrier (wait until every client thread waits at Sync N, run the nested steps, release them) |
+	// flush (filler write, LSM.Rotate, wait until the sealed memtable is an L0 table) |
+	// adjust_throttle (levelManager.AdjustThrottle, what compaction worker 0 does) |
+	// compact_l0 (forced L0 compactions through the engine's planner until L0 is empty) | pause_compaction
+	Do   string `json:"do"`
+	N    int    `json:"n"`
+	On   bool   `json:"on"`
+	K    string `json:"k"`
+	Pad  int    `json:"pad"`
+	Then []Step `json:"then"`
 	// wait_*: give up waiting after this many ms (schedule shaping only, never a verdict)
 	MaxMs int `json:"max_ms"`
 }
 
 type Cfg struct {
-	BatchWaitUs  int    `json:"batch_wait_us"`
-	BatchMax     int    `json:"batch_max"`      // WriteBatchMaxCount
-	MaxBatchSize int    `json:"max_batch_size"` // MaxBatchSize (ErrTxnTooBig at or above)
-	HotLimit     int    `json:"hot_limit"`      // WriteHotKeyLimit (0 = off)
-	Vlog         bool   `json:"vlog"`           // small ValueThreshold: values go through the value log
-	Mem          string `json:"mem"`            // skiplist | art
-	Sync         bool   `json:"sync"`
+	BatchWaitUs     int    `json:"batch_wait_us"`
+	BatchMax        int    `json:"batch_max"`      // WriteBatchMaxCount
+	MaxBatchSize    int    `json:"max_batch_size"` // MaxBatchSize (ErrTxnTooBig at or above)
+	HotLimit        int    `json:"hot_limit"`      // WriteHotKeyLimit (0 = off)
+	Vlog            bool   `json:"vlog"`           // small ValueThreshold: values go through the value log
+	Mem             string `json:"mem"`            // skiplist | art
+	Sync            bool   `json:"sync"`
+	BatchMaxBytes   int    `json:"batch_max_bytes"`  // WriteBatchMaxSize: byte budget of one commit batch
+	PauseCompaction bool   `json:"pause_compaction"` // background compaction paused from the start
+	NumL0           int    `json:"num_l0"`           // NumLevelZeroTables
+	NumCompactors   int    `json:"num_compactors"`
+	MemSize         int    `json:"mem_size"`
+	// fail the Nth file operation `FaultOp` on a path ending in FaultSuffix, once
+	FaultOp     string `json:"fault_op"`
+	FaultSuffix string `json:"fault_suffix"`
+	FaultNth    int    `json:"fault_nth"`
 }
+
+var errInjected = errors.New("verif: injected I/O fault")
 
 type Scenario struct {
 	ID       int    `json:"id"`
@@ -203,6 +223,8 @@ func classify(err error) (string, string) {
 		return "blocked", ""
 	case errors.Is(err, utils.ErrKeyNotFound):
 		return "NOTFOUND", ""
+	case errors.Is(err, errInjected) || strings.Contains(err.Error(), errInjected.Error()):
+		return "ioerr", ""
 	}
 	return "error", err.Error()
 }
@@ -244,7 +266,8 @@ func doOp(db *NoKV.DB, rec *recorder, t int, o Op) {
 			}
 		case "Close":
 			if err := db.Close(); err != nil {
-				res, detail = "error", err.Error()
+				res, detail = classify(err)
+				detail = err.Error()
 			} else {
 				res = "ok"
 			}
@@ -256,13 +279,22 @@ func doOp(db *NoKV.DB, rec *recorder, t int, o Op) {
 func options(c Cfg, dir string) *NoKV.Options {
 	o := NoKV.NewDefaultOptions()
 	o.WorkDir = dir
-	o.MemTableSize = 64 << 20 // no flush during a scenario
+	o.MemTableSize = 64 << 20 // no flush during a scenario unless the scenario asks for one
+	if c.MemSize > 0 {
+		o.MemTableSize = int64(c.MemSize)
+	}
+	if c.NumL0 > 0 {
+		o.NumLevelZeroTables = c.NumL0
+	}
 	if c.Mem == "art" {
 		o.MemTableEngine = NoKV.MemTableEngineART
 	}
 	o.ValueLogGCInterval = 0
 	o.EnableWALWatchdog = false
 	o.NumCompactors = 1
+	if c.NumCompactors > 0 {
+		o.NumCompactors = c.NumCompactors
+	}
 	o.SyncWrites = c.Sync
 	o.WriteBatchWait = time.Duration(c.BatchWaitUs) * time.Microsecond
 	if c.BatchMax > 0 {
@@ -271,6 +303,21 @@ func options(c Cfg, dir string) *NoKV.Options {
 	}
 	if c.MaxBatchSize > 0 {
 		o.MaxBatchSize = int64(c.MaxBatchSize)
+	}
+	if c.BatchMaxBytes > 0 {
+		o.WriteBatchMaxSize = int64(c.BatchMaxBytes)
+		if c.MaxBatchSize == 0 {
+			o.MaxBatchSize = 1 << 30 // the per-request limit stays out of the way
+		}
+	}
+	if c.FaultOp != "" {
+		var seen atomic.Int64
+		o.FS = vfs.NewFaultFS(vfs.OSFS{}, func(op vfs.Op, path string) error {
+			if string(op) == c.FaultOp && strings.HasSuffix(path, c.FaultSuffix) && seen.Add(1) == int64(c.FaultNth) {
+				return errInjected
+			}
+			return nil
+		})
 	}
 	o.WriteHotKeyLimit = int32(c.HotLimit)
 	if c.HotLimit == 0 {
@@ -302,6 +349,9 @@ type run struct {
 	rec    *recorder
 	wg     sync.WaitGroup
 	closed atomic.Bool
+	step   atomic.Value     // control step in progress (diagnosis of driver-side stalls)
+	epoch  atomic.Int64     // barriers released so far
+	atSync [16]atomic.Int64 // client threads waiting at barrier N
 }
 
 func (r *run) thread(t int, ops []Op, start <-chan struct{}) {
@@ -314,6 +364,13 @@ func clientThread(r *run, t int, ops []Op, start <-chan struct{}) {
 	defer r.wg.Done()
 	<-start
 	for _, o := range ops {
+		if o.Kind == "Sync" {
+			r.atSync[o.N].Add(1)
+			for r.epoch.Load() < int64(o.N) {
+				time.Sleep(100 * time.Microsecond)
+			}
+			continue
+		}
 		doOp(r.db, r.rec, t, o)
 	}
 }
@@ -332,8 +389,55 @@ func (r *run) control(start <-chan struct{}) {
 	defer r.wg.Done()
 	<-start
 	bulkT := 1000
-	for _, st := range r.sc.Ctl {
+	r.steps(r.sc.Ctl, &bulkT)
+}
+
+func (r *run) waitFlushed() bool {
+	deadline := time.Now().Add(30 * time.Second)
+	for time.Now().Before(deadline) {
+		if len(r.db.VerifLSM().VerifLayout().Imm) == 0 {
+			return true
+		}
+		time.Sleep(200 * time.Microsecond)
+	}
+	return false
+}
+
+func (r *run) steps(steps []Step, bulkTp *int) {
+	bulkT := *bulkTp
+	defer func() { *bulkTp = bulkT }()
+	fill := 0
+	for _, st := range steps {
+		r.step.Store(st.Do)
 		switch st.Do {
+		case "barrier":
+			deadline := time.Now().Add(30 * time.Second)
+			for r.atSync[st.N].Load() < int64(len(r.sc.Threads)) && time.Now().Before(deadline) {
+				time.Sleep(100 * time.Microsecond)
+			}
+			r.rec.ctl(fmt.Sprintf("barrier-%d", st.N), r.atSync[st.N].Load() == int64(len(r.sc.Threads)))
+			*bulkTp = bulkT
+			r.steps(st.Then, bulkTp)
+			bulkT = *bulkTp
+			r.epoch.Store(int64(st.N))
+		case "flush":
+			fill++
+			doOp(r.db, r.rec, 0, Op{Kind: "Set", K: "fill", V: fmt.Sprintf("s%df%d-%d", r.sc.ID, st.N, fill)})
+			r.db.VerifLSM().Rotate()
+			r.rec.ctl("flushed", r.waitFlushed())
+		case "adjust_throttle":
+			r.db.VerifLSM().VerifAdjustThrottle()
+			r.rec.ctl("adjust-throttle-l0", r.db.VerifLSM().VerifL0Tables() > 0)
+		case "compact_l0":
+			for i := 0; i < 8 && r.db.VerifLSM().VerifL0Tables() > 0; i++ {
+				if err := r.db.VerifLSM().VerifCompact("l0", 0, 0); err != nil {
+					break
+				}
+			}
+			r.rec.ctl("l0-drained", r.db.VerifLSM().VerifL0Tables() == 0)
+		case "pause_compaction":
+			utils.VerifPause("compaction", st.On)
+			r.rec.ctl("pause-compaction", st.On)
 		case "wait_calls":
 			waitCount(&r.rec.calls, st.N, st.MaxMs)
 		case "wait_rets":
@@ -356,7 +460,7 @@ func (r *run) control(start <-chan struct{}) {
 			ready := make(chan struct{})
 			for i := 0; i < st.N; i++ {
 				bulkT++
-				r.thread(bulkT, []Op{{Kind: "Set", K: st.K, V: fmt.Sprintf("s%db%d", r.sc.ID, i)}}, ready)
+				r.thread(bulkT, []Op{{Kind: "Set", K: st.K, V: fmt.Sprintf("s%db%d", r.sc.ID, bulkT), Pad: st.Pad}}, ready)
 			}
 			close(ready)
 		case "close":
@@ -430,6 +534,7 @@ func runScenario(sc Scenario, w *vt.Writer, base, dumps string) {
 		vt.Fatal("mkdir: %v", err)
 	}
 	resetGates()
+	utils.VerifPause("compaction", sc.Cfg.PauseCompaction)
 	rec := &recorder{w: w, sid: sc.ID, pend: map[int64]string{}}
 	db := NoKV.Open(options(sc.Cfg, dir))
 	r := &run{sc: sc, db: db, rec: rec}
@@ -469,8 +574,8 @@ func runScenario(sc Scenario, w *vt.Writer, base, dumps string) {
 		d1 := dumpAll()
 		time.Sleep(2 * time.Second)
 		d2 := dumpAll()
-		p1 := filepath.Join(dumps, fmt.Sprintf("hang-%d-a.txt", sc.ID))
-		p2 := filepath.Join(dumps, fmt.Sprintf("hang-%d-b.txt", sc.ID))
+		p1 := filepath.Join(dumps, fmt.Sprintf("hang-%d-%d-a.txt", sc.ID, os.Getpid()))
+		p2 := filepath.Join(dumps, fmt.Sprintf("hang-%d-%d-b.txt", sc.ID, os.Getpid()))
 		os.WriteFile(p1, d1, 0o644)
 		os.WriteFile(p2, d2, 0o644)
 		rec.mu.Lock()
@@ -480,7 +585,8 @@ func runScenario(sc Scenario, w *vt.Writer, base, dumps string) {
 			pend = append(pend, what)
 			ops = append(ops, op)
 		}
-		w.Emit(vt.Ev{"s": sc.ID, "e": "Hang", "ops": ops, "pending": pend, "dump": p1, "dump2": p2, "budget_s": budget})
+		step, _ := r.step.Load().(string)
+		w.Emit(vt.Ev{"s": sc.ID, "e": "Hang", "ops": ops, "pending": pend, "ctl_step": step, "dump": p1, "dump2": p2, "budget_s": budget})
 		rec.mu.Unlock()
 		w.Close()
 		os.RemoveAll(dir)
